@@ -154,6 +154,18 @@ func (e *Env) eval(n *Node, r int) result {
 			return t.Value == n.Lit
 		})
 	case KRef:
+		if n.Typ == "EOF" {
+			// the EOF token can be named explicitly: it matches at the end of the input (after any elided
+			// tokens) without being consumed, and contributes the empty text
+			i := r
+			for i < e.N && e.elided(i) {
+				i++
+			}
+			if i == e.N {
+				return result{st: sM, r: e.N, nvals: 1, vals: []string{""}, first: -1, last: -1}
+			}
+			return result{st: sN}
+		}
 		tt := e.Symbols[n.Typ]
 		return e.terminal(r, func(t lexer.Token) bool { return t.Type == tt })
 	case KSeq:
